@@ -737,6 +737,14 @@ func (x *Exec) evalSpecCall2(sc *specCtx, e *ast.CallExpr) Value {
 		if len(fa) == 1 && len(fb) == 1 {
 			return Scalar{ite(c, fa[0], fb[0]), a.GoType()}
 		}
+		if len(fa) == len(fb) && a.GoType() != nil {
+			ts := make([]Term, len(fa))
+			for i := range fa {
+				ts[i] = ite(c, fa[i], fb[i])
+			}
+			v, _ := x.unflatten(a.GoType(), ts)
+			return v
+		}
 		panic(engineErr("ite on composite values"))
 	case "forall", "exists":
 		// forall(i, lo, hi, body): i ranges over [lo, hi)
@@ -967,6 +975,43 @@ func (x *Exec) evalSpecCall2(sc *specCtx, e *ast.CallExpr) Value {
 		}
 		ts := x.flatten(arg(0))
 		return Scalar{Term{fmt.Sprintf("(> %s (+ ALLOC0 %d))", ts[0].S, sc.head.allocN), SBool}, boolT}
+	case "visited":
+		// visited(m, k): key k has already been produced by the range loop over map m that is in progress
+		// (the ghost set of the map iterator)
+		need(2)
+		if sc.frame == nil {
+			return PoisonV{}
+		}
+		mv, ok := arg(0).(Scalar)
+		if !ok {
+			panic(engineErr("visited(m, k): m must be a map"))
+		}
+		var found *IterV
+		for _, rv := range sc.frame.regs {
+			if it, ok := rv.(IterV); ok && it.MT != nil && it.Map.S == mv.T.S && (found == nil || it.Seq > found.Seq) {
+				cp := it
+				found = &cp
+			}
+		}
+		if found == nil {
+			// no iterator over a map with this very term: the most recent iterator over a map of the same type,
+			// provided it is provably over this map
+			if mt, ok := mv.Typ.Underlying().(*types.Map); ok {
+				for _, rv := range sc.frame.regs {
+					if it, ok := rv.(IterV); ok && it.MT != nil && types.Identical(it.MT, mt) && (found == nil || it.Seq > found.Seq) {
+						cp := it
+						found = &cp
+					}
+				}
+				if found != nil && !x.entails(sc.st, eq(found.Map, mv.T)) {
+					found = nil
+				}
+			}
+		}
+		if found == nil {
+			return PoisonV{}
+		}
+		return Scalar{sel(found.Visited, x.keyTerm(sc.st, arg(1))), boolT}
 	case "ifacekey":
 		need(1)
 		return Scalar{x.keyTerm(sc.st, arg(0)), types.Typ[types.Int]}
